@@ -293,3 +293,99 @@ def env_for(draw, frag=EVALUABLE, fractions=True, unbound=True, zeros=True):
         if names:
             del env[draw(st.sampled_from(names))]
     return env
+
+
+# {{{ untyped trees over every node class (structure only, not evaluable)
+
+from pbt.spec import (CONCRETE, K_DTYPE, K_EXPR, K_EXPRS, K_KWMAP, K_OPTSTR,  # noqa: E402
+                      K_STR, K_STRS, NODE_TABLE)
+
+ALL_COMPOSITE = tuple(n for n in CONCRETE if any(
+    k in (K_EXPR, K_EXPRS, K_KWMAP) for _, k in NODE_TABLE[n][1])
+    and n not in ("Variable",))
+ALL_LEAF_NODES = ("NaN", "Wildcard", "DotWildcard", "StarWildcard", "FunctionSymbol")
+NAMES = ("x", "y", "z", "f", "a_b", "name")
+SCOPES = ("pymbolic_eval", "pymbolic_expr", "pymbolic_global")
+CMP_NAMES = ("eq", "ne", "lt", "le", "gt", "ge")
+
+
+@st.composite
+def any_leaf(draw, wild=True, nan=True):
+    c = draw(st.integers(0, 11))
+    if c <= 4:
+        return ["Var", draw(st.sampled_from(NAMES))]
+    if c <= 6:
+        return ["Const", "int", draw(st.sampled_from((0, 1, -1, 2, 3, 4, 10**12)))]
+    if c == 7:
+        return ["Const", "float", draw(st.sampled_from((0.0, 1.0, -1.0, 2.5, 4.0, -0.0)))]
+    if c == 8:
+        return ["Const", "bool", draw(st.booleans())]
+    if c == 9:
+        return ["Const", draw(st.sampled_from(("np.int64", "np.float64"))),
+                draw(st.sampled_from((0, 1, 4)))]
+    if c == 10 and nan:
+        return ["NaN", draw(st.sampled_from((None, "float", "np.float64")))]
+    if c == 11 and wild:
+        n = draw(st.sampled_from(("Wildcard", "DotWildcard", "StarWildcard",
+                                  "FunctionSymbol")))
+        if n in ("DotWildcard", "StarWildcard"):
+            return [n, draw(st.sampled_from(("w_", "v_")))]
+        return [n]
+    return ["Var", draw(st.sampled_from(NAMES))]
+
+
+@st.composite
+def any_expr(draw, depth=3, nodes=ALL_COMPOSITE, containers=True, wild=True,
+             deprecated_forms=False, min_arity=0):
+    """A spec over every node class; field values chosen by field kind."""
+    d = draw
+
+    def rec(depth):
+        if depth <= 0 or d(st.integers(0, 3 + depth)) == 0:
+            return d(any_leaf(wild=wild))
+        n = d(st.sampled_from(nodes))
+        if n == "Slice":
+            ar = d(st.integers(max(0, min_arity - 1), 3))
+            return ["Slice", [None if d(st.integers(0, 2)) == 0 else rec(depth - 1)
+                              for _ in range(ar)]]
+        out = [n]
+        for fname, kind in NODE_TABLE[n][1]:
+            if kind == K_EXPR:
+                if n == "Subscript" and fname == "index" and containers \
+                        and d(st.integers(0, 3)) == 0:
+                    out.append(["Tuple", [rec(depth - 1) for _ in range(
+                        d(st.integers(1 if min_arity else 0, 3)))]])
+                else:
+                    out.append(rec(depth - 1))
+            elif kind == K_EXPRS:
+                lo = min_arity if n not in ("Call", "CallWithKwargs", "Substitution") else 0
+                k = d(st.integers(lo, 3))
+                if n == "Substitution":
+                    k = len(out[2])
+                out.append([rec(depth - 1) for _ in range(k)])
+            elif kind == K_STR:
+                if n == "Comparison":
+                    ops = CMP_OPS + (CMP_NAMES if deprecated_forms else ())
+                    out.append(d(st.sampled_from(ops)))
+                elif n == "CommonSubexpression":
+                    out.append(d(st.sampled_from(
+                        SCOPES + ((None,) if deprecated_forms else ()))))
+                else:
+                    out.append(d(st.sampled_from(NAMES)))
+            elif kind == K_OPTSTR:
+                out.append(d(st.sampled_from((None, None, "u", "tmp"))))
+            elif kind == K_STRS:
+                out.append(d(st.lists(st.sampled_from(NAMES), max_size=2,
+                                      unique=True)))
+            elif kind == K_KWMAP:
+                keys = d(st.lists(st.sampled_from(("k", "j", "kw")), min_size=1,
+                                  max_size=3, unique=True))
+                out.append([[k, rec(depth - 1)] for k in keys])
+            elif kind == K_DTYPE:
+                out.append(d(st.sampled_from((None, "float", "np.float64"))))
+        if n == "Substitution":
+            pass
+        return out
+    return rec(depth)
+
+# }}}
